@@ -12,7 +12,7 @@ class _Stop(Exception):
     pass
 
 
-def k_queue(N=3, shapes=None, max_polls=None, depths=None):
+def k_queue(N=3, shapes=None, max_polls=None, depths=None, manager=True):
     from world import world
 
     world.install()
@@ -63,15 +63,22 @@ def k_queue(N=3, shapes=None, max_polls=None, depths=None):
         for i in range(N):
             p = GenericCommandParameters(name=nm[i], command="job " + nm[i], blocked_by={nm[b] for b in blockers[i]},
                                          cancel_on_blocking_job_failure=flags[i])
-            jobs.append(acc.AsyncCliCommand(p, "job " + nm[i], out, 1, True, "4242"))
+            jobs.append(acc.AsyncCliCommand(p, "job " + nm[i], out, 1, manager, "4242"))
         rc = {}
+        pending_blockers = []  # (job, blockers never started when the job was started): they must be canceled ones
 
         def popen(argv, *a, **kw):
             name = kw["env"]["JADE_JOB_NAME"]
             have = {r.name for r in W["results"]}
             i = nm.index(name)
             for b in blockers[i]:
-                ex.check(nm[b] in have, "C02: job started before its blocker had a recorded outcome", job=name, blocker=nm[b])
+                if manager:
+                    ex.check(nm[b] in have, "C02: job started before its blocker had a recorded outcome", job=name, blocker=nm[b])
+                elif nm[b] in W["pipes"]:  # (a node that is not the batch's manager records nothing: judge by the processes)
+                    ex.check(W["pipes"][nm[b]].returncode is not None, "C02: job started while its blocker was still running",
+                             job=name, blocker=nm[b])
+                else:
+                    pending_blockers.append((name, b))
             ex.check(name not in W["launched"], "C01: job command started more than once", job=name)
             ex.check(name not in {r.name for r in W["results"]}, "C04: job with a recorded (canceled) outcome was started", job=name)
             W["launched"].append(name)
@@ -135,6 +142,20 @@ def k_queue(N=3, shapes=None, max_polls=None, depths=None):
                 want[i] = None  # runs; successful/failed by its own exit code
                 if nm[i] in rc:
                     want[i] = "failed" if ex.value(rc[nm[i]] != 0) else "successful"
+        if not manager:
+            ex.check(not W["results"], "C03: a node that is not the batch's manager recorded results", rows=[r.name for r in W["results"]])
+            for i in range(N):
+                n = nm[i]
+                if want[i] == "canceled":
+                    ex.check(n not in W["launched"], "C04: canceled job was started (node that is not the batch's manager)", job=n)
+                else:
+                    ex.check(W["launched"].count(n) == 1, "C01/C04: job that is not canceled did not run exactly once (non-manager node)",
+                             job=n, times=W["launched"].count(n))
+            for name, b in pending_blockers:
+                ex.check(want[b] == "canceled", "C02: job started before its blocker ran (node that is not the batch's manager)",
+                         job=name, blocker=nm[b])
+            ex.reached()
+            return
         for i in range(N):
             n = nm[i]
             ex.check(n in res, "C03/C04: job without a recorded outcome after the queue drained", job=n)
